@@ -358,6 +358,7 @@ class Engine:
         self.prune = prune
         self.types = {}          # term -> qualType (for atoms)
         self.npaths = 0
+        self.record_loads = False
 
     # -- lookup ------------------------------------------------------------
     def find_fn(self, name):
@@ -759,8 +760,18 @@ class _Activation:
                 h = fresh(tag + ':' + fmt(key))
                 self.e.types[h] = self.e.types.get(key) or cast.qual_type(x)
                 st.mem[key] = h
-                if key[0] in ('i', 'f'):
-                    st.havoc_roots.append(key[1])
+                if key[0] == 'i':
+                    st.havoc_roots.append(key[1])      # other elements of the array may be written too
+                elif key[0] == 'f' and not (key[1][0] in ('v', '&')):
+                    # field written through a computed pointer (e.g. &t->entry[i]): the
+                    # pointer may differ per iteration, clobber what its root reaches
+                    root = key[1]
+                    while root[0] in ('+', '-', 'f', 'i', 'cast') and isinstance(root[1], tuple):
+                        nxt = root[1]
+                        if nxt[0] in ('v', '&', 'h', 'call'):
+                            break
+                        root = nxt
+                    st.havoc_roots.append(root)
         for c in calls:
             for a in c['inner'][1:]:
                 self.clobber_arg(st, a, tag)
@@ -1006,18 +1017,19 @@ class _Activation:
             raise Unsupported('lvalue of %s' % rd.get('kind'))
         if kd == 'MemberExpr':
             out = []
+            fname_ = self.union_canon(n)
             if n.get('isArrow'):
                 for s, b in self.eval(n['inner'][0], st, side_effects):
-                    key = ('f', b, n['name'])
+                    key = ('f', b, fname_)
                     self.e.types.setdefault(key, cast.qual_type(n))
                     out.append((s, key))
             else:
                 for s, bk in self.lvalue(n['inner'][0], st, side_effects):
-                    key = ('f', ('&', bk), n['name'])
+                    key = ('f', ('&', bk), fname_)
                     if bk[0] == 'i' or bk[0] == 'f':
                         # a[i].f  ->  f of pointer a+i ; p->s.f -> f of &(p->s)
                         if bk[0] == 'i':
-                            key = ('f', add(bk[1], bk[2]), n['name'])
+                            key = ('f', add(bk[1], bk[2]), fname_)
                     self.e.types.setdefault(key, cast.qual_type(n))
                     out.append((s, key))
             return out
@@ -1047,6 +1059,36 @@ class _Activation:
             return out
         raise Unsupported('lvalue kind %s' % kd)
 
+    def union_canon(self, n):
+        """members of a union of equally sized scalars share one location: use
+        the first member's name for all of them"""
+        base = n['inner'][0]
+        bt = base.get('type', {})
+        qt = (bt.get('desugaredQualType') or bt.get('qualType') or '').replace('const ', '').replace('*', '').strip()
+        if not qt.startswith('union '):
+            td = None
+            for u in self.e.units:
+                if qt in u.typedefs:
+                    td = u.typedefs[qt]
+                    break
+            if not td:
+                return n['name']
+            qt = (td.get('desugaredQualType') or td.get('qualType') or '')
+            if not qt.startswith('union '):
+                return n['name']
+        c = self.e.__dict__.setdefault('_union_cache', {})
+        if qt not in c:
+            c[qt] = None
+            for u in self.e.units:
+                r = u.records.get(qt.split(' ', 1)[1])
+                if r:
+                    fl = [f for f in cast.inner(r) if cast.kind(f) == 'FieldDecl']
+                    sizes = {SIZEOF_BASIC.get(cast.qual_type(f).replace('const ', '').strip()) for f in fl}
+                    if len(sizes) == 1 and None not in sizes:
+                        c[qt] = fl[0]['name']
+                    break
+        return c[qt] or n['name']
+
     def _is_local(self, did):
         d = self.u.by_id.get(did)
         if d is None:
@@ -1068,6 +1110,11 @@ class _Activation:
 
     # -- memory ------------------------------------------------------------------
     def read(self, st, key, node=None):
+        if self.e.record_loads and key[0] == 'i' and node is not None:
+            e = Effect('load', key, (), node)
+            e.inloop = st.loopdepth
+            e.frame = self.prefix
+            st.effects.append(e)
         if key in st.mem:
             return st.mem[key]
         # field of a struct that was assigned as a whole
